@@ -28,7 +28,7 @@ ASSUMPTIONS = [
 ]
 BOUNDS = {'quick': dict(generations_preloaded='0..2', steps='<=3', limits='symbolic (kernel) / 0..2 (real solvers)'),
           'thorough': dict(generations_preloaded='0..3', steps='<=4', limits='symbolic (kernel) / 0..3 (real solvers)')}
-BUDGET = {'quick': 400, 'thorough': 3600}
+BUDGET = {'quick': 1800, 'thorough': 3600}
 
 STOPMSG = 'StubTermination with {}'
 
